@@ -11,7 +11,7 @@ use serde_json::{json, Value};
 use std::cell::RefCell;
 use std::rc::Rc;
 
-pub const URLS: [&str; 15] = [
+pub const URLS: [&str; 19] = [
     "http://tracker.example/announce",
     "http://tracker.example:8080/a/b/announce",
     "http://t.example/announce?key=1",
@@ -32,6 +32,12 @@ pub const URLS: [&str; 15] = [
     // parameters of the tracker whose names contain / equal names of the client's own parameters
     "http://t.example/announce?transport=tcp&days_left=30&super_peer_id=7&xinfo_hash=1",
     "http://t.example/announce?numwant=5&event=x&uploaded=7",
+    // a question mark that exists only inside the fragment
+    "http://t.example/announce#section?2",
+    "http://t.example/announce#what?",
+    // existing parameters whose percent-escapes are not UTF-8 (binary pass keys)
+    "http://t.example/announce?passkey=%FF%FE%00abc%80",
+    "http://t.example/announce?k=ab%C3&z=%80",
 ];
 
 /// Scheme and host in lower case (they are case-insensitive), the rest untouched.
@@ -401,7 +407,7 @@ pub fn run(ctx: &Ctx) -> Outcome {
     o.set("re_announce_cases", Value::Array(re_rows));
     o.set("evaluations", json!(cases.len() + 7));
     o.set("distinct_nontrivial", json!(distinct.len()));
-    o.set("rule", json!("info-hash = a fixed 20-byte pattern with every byte value 0..=255 substituted at the listed positions, plus all-equal hashes; x 15 announce URLs (plain, port+path, with one / two query parameters, trailing ?, upper-case scheme, mixed-case https host with port and query, IPv6 literal, IPv4 literal with port, non-ASCII characters in the path before a query, non-ASCII in path and in a parameter value, a #fragment behind the path and behind a query, tracker parameters whose names contain (transport, days_left, super_peer_id, xinfo_hash) or equal (numwant, event, uploaded) names of the client's own parameters; bases compared after percent-decoding, fragments dropped) x 5 alphanumeric peer ids x total lengths {0, 1, 2^40, 2^31-1, 2^32, 2^53+1, 2^63-1, 2^63, 2^63+1, 2^64-1, 2^40+1}, the last four as multi-file torrents (quick: ids/lengths only vary for the first URL). Plus retries: every word of <= 2 (thorough 3) failed announces (refused / HTTP 500 / garbage / failure reason) before the good reply for every URL, id and length, and one failure for every hash; EVERY request of a case is judged, not only the first. Each case runs the real TrackerClient::run over the HTTP seam (paused clock, so the 1 s retry delay is virtual); distinct_nontrivial = number of distinct request URLs captured. Plus re-announces of a running session (full-session world, 3 pieces of 5+5+3 bytes): for every proper subset of the pieces (owned by the seeder and delivered) the other connection then ends, the client is out of candidates and announces again; that request must carry left = bytes of the pieces still missing, the info-hash, peer id and port."));
+    o.set("rule", json!("info-hash = a fixed 20-byte pattern with every byte value 0..=255 substituted at the listed positions, plus all-equal hashes; x 19 announce URLs (plain, port+path, with one / two query parameters, trailing ?, upper-case scheme, mixed-case https host with port and query, IPv6 literal, IPv4 literal with port, non-ASCII characters in the path before a query, non-ASCII in path and in a parameter value, a #fragment behind the path and behind a query, tracker parameters whose names contain (transport, days_left, super_peer_id, xinfo_hash) or equal (numwant, event, uploaded) names of the client's own parameters, a question mark only inside the fragment, existing parameters with percent-escapes that are not UTF-8; bases compared after percent-decoding, fragments dropped) x 5 alphanumeric peer ids x total lengths {0, 1, 2^40, 2^31-1, 2^32, 2^53+1, 2^63-1, 2^63, 2^63+1, 2^64-1, 2^40+1}, the last four as multi-file torrents (quick: ids/lengths only vary for the first URL). Plus retries: every word of <= 2 (thorough 3) failed announces (refused / HTTP 500 / garbage / failure reason) before the good reply for every URL, id and length, and one failure for every hash; EVERY request of a case is judged, not only the first. Each case runs the real TrackerClient::run over the HTTP seam (paused clock, so the 1 s retry delay is virtual); distinct_nontrivial = number of distinct request URLs captured. Plus re-announces of a running session (full-session world, 3 pieces of 5+5+3 bytes): for every proper subset of the pieces (owned by the seeder and delivered) the other connection then ends, the client is out of candidates and announces again; that request must carry left = bytes of the pieces still missing, the info-hash, peer id and port."));
     o.set("hashes", json!(hs.len()));
     let picks = ctx.seeded_pick(cases.len(), 4);
     o.set("samples", Value::Array(picks.iter().map(|i| json!({"announce": URLS[cases[*i].url], "hash": core::hex(&cases[*i].hash), "request": res[*i].0})).collect()));
